@@ -183,7 +183,7 @@ class C12(Spec):
         'annotation rules are transcribed (take/drop/[::q]) and compared on every case',
         'filter outputs, RMS values and matrix products are matched against the whole-signal call of the same kernel '
         'to 1e-12 (relative to the signal scale); selections, derivative and threshold booleans bit-exactly',
-        'downsample, decimate, iirfilter and rms are modelled as repaired by notes/C12_fix_1..4.diff',
+        'downsample, decimate, iirfilter and rms are modelled as repaired by notes/C12_fix_1..5.diff (5: the filter state is kept over an empty chunk)',
     ]
     ASSUMPTIONS = [
         'input stream is well formed: one annotation record, chunk k+1 starts where chunk k ends (other streams are '
@@ -191,7 +191,7 @@ class C12(Spec):
         'derivative and event_rate need annotated input (they read fs off the data); auto_th needs an explicit fs; '
         'mc_reference needs 2-D data; iirfilter needs a non-empty first chunk; block sizes / factors are >= 1',
         'rms: annotated input starts at a multiple of the block length (s0/n is a true division in the code)',
-        'event_rate: every event lies inside the span of the Events object that carries it; the Ellipsis reset '
+        'event_rate: every event lies inside the span of the Events object that carries it (listed in any order), one sampling rate; the Ellipsis reset '
         'signal of blocked/discard is outside the property',
     ]
     RULE = ('per stage x array kind (plain 1-D, plain 2-D, annotated 1-D, annotated 2-D): every composition of short '
